@@ -180,10 +180,17 @@ pub fn on_goto_definition_impl<TCompilationProfile: CompilationProfile>(
 
                 selectable_definition_location(db, parent_type_name.0, wrapper.inner.0)
                     .and_then(|location| {
+                        // the definition is an iso literal, not part of the schema
                         isograph_location_to_lsp_location(
                             db,
                             location,
-                            &db.get_schema_source().content,
+                            read_iso_literals_source_from_relative_path(
+                                db,
+                                location.text_source.relative_path_to_source_file,
+                            )
+                            .as_ref()?
+                            .content
+                            .reference(),
                         )
                     })
                     .map(lsp_location_to_scalar_response)
@@ -199,10 +206,17 @@ pub fn on_goto_definition_impl<TCompilationProfile: CompilationProfile>(
 
                 selectable_definition_location(db, parent_type_name.0, object_wrapper_path.inner.0)
                     .and_then(|location| {
+                        // the definition is an iso literal, not part of the schema
                         isograph_location_to_lsp_location(
                             db,
                             location,
-                            &db.get_schema_source().content,
+                            read_iso_literals_source_from_relative_path(
+                                db,
+                                location.text_source.relative_path_to_source_file,
+                            )
+                            .as_ref()?
+                            .content
+                            .reference(),
                         )
                     })
                     .map(lsp_location_to_scalar_response)
